@@ -24,6 +24,9 @@ type GenCase struct {
 	// Flagged: run with a non-default global -prefix while every plugin the user's files call keeps its
 	// classic name through -pluginprefix (so the sources are unchanged and only internal helpers are renamed)
 	Flagged bool `json:"flagged,omitempty"`
+	// Overlap: the case's plugin gets the prefix "same<Plugin>" and another, uncalled plugin with a LONGER default
+	// prefix gets the proper prefix "same": the longest effective prefix must win the call
+	Overlap bool `json:"overlap,omitempty"`
 }
 
 func (t *TypeTerm) String() string {
@@ -60,6 +63,9 @@ func (t *TypeTerm) Size() int {
 func (g *GenCase) String() string {
 	if g.Flagged {
 		return fmt.Sprintf("%s(%s) form=%s flags=-prefix=gen,-pluginprefix=<called plugins keep derive*>", g.P, g.T.String(), g.F)
+	}
+	if g.Overlap {
+		return fmt.Sprintf("%s(%s) form=%s flags=-pluginprefix=<plugin>=same<Plugin>,takewhile=same", g.P, g.T.String(), g.F)
 	}
 	return fmt.Sprintf("%s(%s) form=%s", g.P, g.T.String(), g.F)
 }
